@@ -1754,6 +1754,76 @@ def install(w):
         it.drop_value(a[1])
         return mk_err(Agg("struct", "AccessError", []))
 
+    # ---------------- std::thread_local! (per-"thread" storage; the current thread is w.cur_thread)
+    @reg("std::thread::LocalKey::new")
+    def std_lk_new(w, it, a, c):
+        f = a[0]
+        path = f.path if isinstance(f, FnItem) else str(f)
+        return Opaque("StdLocalKey", strip_generics(path).split("::{constant")[0].split("::")[-1])
+
+    def std_tls_cell(w, it, key):
+        name = key.data
+        th = getattr(w, "cur_thread", 0)
+        if not hasattr(w, "tls"):
+            w.tls = {}
+        cell = w.tls.get((th, name))
+        if cell is None:
+            from .interp import Frame
+            inits = [b for b in w.prog.bodies.values() if (("::" + name + "::") in ("::" + b.name) or b.name.startswith(name + "::")) and "init" in b.name.split("::")[-1].lower()]
+            if len(inits) != 1:
+                raise Unsupported("thread_local %s: initialiser not found (%d candidates)" % (name, len(inits)))
+            b = inits[0]
+            v = it.run(Frame(b), None)[1] if b.header.startswith(("const ", "static ")) else it.call_body(b, [])
+            cell = Cell(v, "tls:%s@thread%d" % (name, th))
+            w.tls[(th, name)] = cell
+        return cell
+
+    @reg("std::thread::LocalKey::with", "std::thread::LocalKey::try_with")
+    def std_lk_with(w, it, a, c):
+        key = deref(it, a[0])
+        if not (isinstance(key, Opaque) and key.what == "StdLocalKey"):
+            raise Unsupported("std LocalKey::with on %r" % (key,))
+        cell = std_tls_cell(w, it, key)
+        r = it.call_closure(a[1], [Ref(cell, (), False)])
+        return mk_ok(r) if strip_generics(c).endswith("try_with") else r
+
+    @reg("std::thread::LocalKey::set")
+    def std_lk_set(w, it, a, c):
+        cell = std_tls_cell(w, it, deref(it, a[0]))
+        cell.value.fields[0] = a[1]
+        return UNIT
+
+    @reg("std::thread::LocalKey::get")
+    def std_lk_get(w, it, a, c):
+        cell = std_tls_cell(w, it, deref(it, a[0]))
+        return it.copy_val(cell.value.fields[0])
+
+    @reg("Cell::new", "std::cell::Cell::new")
+    def cell_new(w, it, a, c):
+        return Agg("struct", "Cell", [a[0]])
+
+    @reg("Cell::get", "std::cell::Cell::get")
+    def cell_get(w, it, a, c):
+        return it.copy_val(deref(it, a[0]).fields[0])
+
+    @reg("Cell::set", "std::cell::Cell::set")
+    def cell_set(w, it, a, c):
+        deref(it, a[0]).fields[0] = a[1]
+        return UNIT
+
+    @reg("Cell::replace", "std::cell::Cell::replace")
+    def cell_replace(w, it, a, c):
+        cl = deref(it, a[0])
+        old, cl.fields[0] = cl.fields[0], a[1]
+        return old
+
+    @reg("Cell::take", "std::cell::Cell::take")
+    def cell_take(w, it, a, c):
+        cl = deref(it, a[0])
+        old = cl.fields[0]
+        cl.fields[0] = IntV(0, old.bits, old.signed) if isinstance(old, IntV) else mk_none()
+        return old
+
     @reg("tokio::task::LocalKey::new", "LocalKey::new")
     def lk_new(w, it, a, c):
         return mk_none()
